@@ -1365,6 +1365,7 @@ func (c *streamableServerConn) acquireStream(ctx context.Context, w http.Respons
 	}
 	c.mu.Unlock()
 
+	verifYield("streamable.acquireStream.lookedUp", streamID) // no-op unless built with -tags verif
 	s.mu.Lock()
 	defer s.mu.Unlock()
 
@@ -1936,6 +1937,7 @@ func (c *streamableServerConn) Write(ctx context.Context, msg jsonrpc.Message) e
 		return errors.New("session is closed")
 	}
 
+	verifYield("streamable.Write.routed", s.id) // no-op unless built with -tags verif
 	s.mu.Lock()
 	defer s.mu.Unlock()
 
